@@ -24,9 +24,11 @@ def run(ctx: Ctx) -> None:
     ctx.rule('R-LOSSLESS-L8', 'first-line indent for the first segment only; both indents reach the text')
     ctx.rule('R-ACCT', 'width handed down unchanged; indents accounted once; column bookkeeping uses the placed word')
     ctx.rule('R-SENT', 'sentence loop footprint')
+    ctx.rule('R-LOOPSTATE', 'nothing accumulates from one paragraph to the next in fill_text')
     ctx.rule('R-ESCAPE-ACTION', 'the escaper returns the word or the word with one backslash inserted')
     ctx.run(wrap.check_word_placement)
     ctx.run(wrap.check_sentence_lines)
     ctx.run(wrap.check_indents)
     ctx.run(wrap.check_accounting)
+    ctx.run(wrap.check_paragraph_independence)
     ctx.run(hazard.check_escape_action)
